@@ -18,6 +18,10 @@ CHECKS = {
          "Exploration: documents of both grammars rendered with hostile trivia (multi-line block strings, CR/CRLF/LF CR, BOMs, comments, multi-byte) before every node kind, their single-token mutations (error locations), multi-file schema loads and validation errors; offset range, token-start, line, column, file and anchor text checked for every position the library reports.",
          "Trusts the line index (15 lines) and the reference lexer; lexical errors are only checked for bounds. One recorded known finding (quoted-string column, pinned by the suite).",
          "DESIGN.md §4 C04"),
+ "C12": ("round-trip monitor: model(parse(x)) = model(parse(format_c(parse(x)))) and text fixpoint, over generated trees with hostile strings x 20 formatter configurations",
+         "Exploration: 5k (quick) / 100k (thorough) documents rendered from random syntax trees with hostile string values, directives in every position (incl. variable definitions), fragment variables and comments are parsed, formatted under every combination of comments x compacted x 5 indents (builtin / no-description flags rotated), re-parsed and compared through an independent AST->model adapter; the second format must reproduce the first byte for byte.",
+         "Trusts the model adapter and diff; comments and positions are not compared; relative order of operations vs fragments not compared (formatter emits operations first by design). Two defects found by this check were repaired (fix: commits fc85355, 36779a6).",
+         "DESIGN.md §4 C12"),
  "C16": ("limit-exactness oracle against an independent reference token count, every limit 0..T+2; hook counters (lexer reads, last scanned byte) for the work bound; lowered stack ceiling for recursion depth",
          "Exploration: ~8k (quick) / 60k (thorough) documents of both grammars (valid and single-token-mutated, comments everywhere) are parsed under every limit from 0 to T+2 through ParseQueryWithTokenLimit, ParseSchemaWithLimit and ParseSchemasWithLimit (per-source limits); success must be exact (L=0 or L>=T reproduces the unlimited tree by reflect.DeepEqual; 0<L<T fails) and monotone, and every limit failure must have read at most L+2 tokens and scanned no byte beyond reference token L+2. 1-8 MiB floods (nesting, tokens, comments) under limits 1..15000 run with a 32 MiB stack ceiling so unbounded recursion is a fatal exit.",
          "T comes from the reference lexer (C03); when the unlimited parse fails only failure (not the error text) is required of limits >= T, because the property asks no more. Work is measured in hook counters, not time.",
